@@ -41,3 +41,7 @@ def classify_a3(entry, metas, k):
         if (no_routines or fp_on(other["st"]) == fp_on(me["st"])) and a3_trigger(other["text"]):
             return "A3/optimizer-deletes-every-store-of-cancelled-slot"
     return None
+
+
+def classify_c02(entry, metas, k, v):
+    return classify_a3(entry, metas, k)
